@@ -38,7 +38,7 @@ def main():
             ctx.violation({"kind": "forbidden-construct", "where": bad,
                            "broken": "grep gate: Admitted/Axiom/... present in the Coq development"},
                           found_input=False)
-        ok, out = C.coq_static_build()
+        ok, out = C.coq_static_build(getattr(mod, "STATIC", None))
         if not ok:
             ctx.notes.append("static theory build failed")
             ctx.violation({"kind": "static-build-failed", "output": out[-3000:],
